@@ -476,7 +476,7 @@ def op_to_cmd(op):
 
 
 def parse_items(mline):
-    """M line -> list of (uci, short, long, ps, pl, pu)"""
+    """M line -> list of (uci, short, long, ps, pl, pu, check verdict)"""
     if mline.strip() == "M -":
         return []
     return [tuple(x.split(":")) for x in mline[2:].split(" ") if x]
@@ -555,10 +555,18 @@ def spec_scan(obs, stats, harvest):
             seen = {}
             kinds = set()
             for it in items:
-                if len(it) != 6:
+                if len(it) != 7:
                     fails.append(("malformed move line", op_to_cmd(cur_op), str(it)))
                     continue
-                uci, sh_, lo, ps, pl, pu = it
+                uci, sh_, lo, ps, pl, pu, ck = it
+                # the suffix says what make + MoveGen say: '+' check with a reply, '#' check without, none otherwise
+                want_suffix = "" if ck == "n" else ("#" if ck == "c0" else "+")
+                for form in (sh_, lo):
+                    got_suffix = form[len(form.rstrip("+#")):]
+                    if got_suffix != want_suffix:
+                        fails.append(("suffix of %r (move %s) is %r but the move gives %s" %
+                                      (form, uci, got_suffix, "no check" if ck == "n" else "check with %s replies" % ck[1:]),
+                                      op_to_cmd(cur_op), form))
                 want = uci_num(uci)
                 if sh_ in seen:
                     fails.append(("two legal moves share the short form %r: %s and %s" % (sh_, seen[sh_], uci), op_to_cmd(cur_op), sh_))
@@ -781,6 +789,8 @@ def run(ctx):
                         model_fails.append(("C17_fen_total fails on the model: " + l[3:], ch))
                 elif l.startswith("mH"):
                     k = "short_form_hypothesis_holds" if l.split()[1] == "1" else "short_form_hypothesis_NOT_met"
+                    stats[k] = stats.get(k, 0) + 1
+                    k = "fen_accepted_position_passes_Spec_accepted" if l.split()[2] == "1" else "fen_accepted_position_FAILS_Spec_accepted"
                     stats[k] = stats.get(k, 0) + 1
             if len(ctx.samples) < 4:
                 for i, l in enumerate(l1):
